@@ -2,6 +2,10 @@ import Lean.Data.Json
 import GettsimVerif.Core.Basic
 import GettsimVerif.Core.Agg
 import GettsimVerif.Core.Groupings
+import GettsimVerif.Core.Round
+import GettsimVerif.Core.TimeConv
+import GettsimVerif.Core.Piecewise
+import GettsimVerif.Core.ParamsByDate
 /-
 Line-protocol driver: one JSON object per input line, one JSON value per output line.
 Rationals travel as strings "n/d" (or JSON integers), booleans as JSON booleans.
@@ -69,5 +73,65 @@ def oBools (l : List Bool) : Json := .arr (l.map Json.bool).toArray
 def out {α : Type} (f : α → Json) : Except Err α → Json
   | .ok v => Json.mkObj [("ok", f v)]
   | .error e => Json.mkObj [("err", .str (toString e))]
+
+/-! ### YAML trees: {"q":"n/d"} {"inf":±1} {"s":..} {"b":..} {"null":0} {"date":ord} {"l":[..]} {"d":[[key,val],..]}
+keys: {"ks":..} {"ki":n} {"kd":ord} -/
+
+open GV.Yaml in
+def jKey (j : Json) : Except String Key :=
+  match j.getObjVal? "ks", j.getObjVal? "ki", j.getObjVal? "kd" with
+  | .ok (.str s), _, _ => .ok (.s s)
+  | _, .ok n, _ => do pure (.i (← jInt n))
+  | _, _, .ok n => do pure (.d (← jInt n))
+  | _, _, _ => .error "bad key"
+
+open GV.Yaml in
+partial def jY (j : Json) : Except String Y :=
+  match j with
+  | .obj _ =>
+    match j.getObjVal? "q" with
+    | .ok q => do pure (.num (← jRat q))
+    | .error _ =>
+    match j.getObjVal? "inf" with
+    | .ok n => do pure (if (← jInt n) > 0 then .pinf else .ninf)
+    | .error _ =>
+    match j.getObjVal? "s" with
+    | .ok (.str s) => pure (.str s)
+    | _ =>
+    match j.getObjVal? "b" with
+    | .ok (.bool b) => pure (.bool b)
+    | _ =>
+    match j.getObjVal? "date" with
+    | .ok n => do pure (.date (← jInt n))
+    | .error _ =>
+    match j.getObjVal? "l" with
+    | .ok (.arr xs) => do pure (.list (← xs.toList.mapM jY))
+    | _ =>
+    match j.getObjVal? "d" with
+    | .ok (.arr kvs) => do
+      let l ← kvs.toList.mapM fun kv => match kv with
+        | .arr #[k, v] => do pure (← jKey k, ← jY v)
+        | _ => .error "bad kv"
+      pure (.dict l)
+    | _ => pure .null
+  | _ => .error "bad yaml node"
+
+open GV.Yaml in
+def oKey : Key → Json
+  | .s v => Json.mkObj [("ks", .str v)]
+  | .i v => Json.mkObj [("ki", Json.num (JsonNumber.fromInt v))]
+  | .d v => Json.mkObj [("kd", Json.num (JsonNumber.fromInt v))]
+
+open GV.Yaml in
+partial def oY : Y → Json
+  | .num q => Json.mkObj [("q", .str (ratStr q))]
+  | .pinf => Json.mkObj [("inf", Json.num (JsonNumber.fromInt 1))]
+  | .ninf => Json.mkObj [("inf", Json.num (JsonNumber.fromInt (-1)))]
+  | .str v => Json.mkObj [("s", .str v)]
+  | .bool b => Json.mkObj [("b", .bool b)]
+  | .null => Json.mkObj [("null", Json.num (JsonNumber.fromInt 0))]
+  | .date o => Json.mkObj [("date", Json.num (JsonNumber.fromInt o))]
+  | .list xs => Json.mkObj [("l", .arr (xs.map oY).toArray)]
+  | .dict kvs => Json.mkObj [("d", .arr (kvs.map fun (k, v) => Json.arr #[oKey k, oY v]).toArray)]
 
 end GV.Drv
